@@ -72,6 +72,16 @@ type pushed struct {
 	what        string
 	layout      *livesim.MySQLOrder // the version of the table the images were written under
 	tableMap    bool                // a TableMapEvent (never reaches the tracker)
+	unknown     bool                // a rows event of our database for a table that is not registered (skipped)
+	forceID     uint64              // table id of an event without a layout
+	sentDB      string              // schema name and table id the event went out with
+	sentID      uint64
+}
+
+// fetch is one information_schema.columns lookup RunPollLoop made: the table asked for and the answer it got.
+type fetch struct {
+	table string
+	cols  []string
 }
 
 // ---- tracker trace ----
@@ -131,6 +141,9 @@ type env struct {
 	runMu     sync.Mutex
 	layoutMu  sync.Mutex
 	needMap   map[string]bool // the next rows event of the table is preceded by a TableMapEvent
+	stream    []*pushed       // everything pushed into the syncer's channel, in order
+	fetches   []fetch         // the information_schema lookups RunPollLoop made, in order (under layoutMu)
+	blind     map[string]bool // tables whose last lookup came back empty: reopened at the next opportunity
 }
 
 var envs sync.Map // tracker -> *env
@@ -468,21 +481,46 @@ func runCase(schema *sqlgen.Schema, c Case) (res *result) {
 		m.Create(srv)
 	}
 	var layoutMu sync.Mutex
+	fr := r.Fork() // the lookups happen on RunPollLoop's goroutine: their own generator
+	var e *env
+	blindPct := 5
+	if c.Intense {
+		blindPct = 12
+	}
+	if c.Preset != "" || c.Burst {
+		blindPct = 0
+	}
 	conn := livesim.WrapDB(srv, func(table string) []string {
 		layoutMu.Lock()
 		defer layoutMu.Unlock()
+		var cols []string
 		if m := res.layouts[table]; m != nil {
-			return m.ColumnNames()
+			cols = m.ColumnNames()
 		}
-		return nil
+		// the source asked for the columns momentarily does not show the table (a lagging replica, a table being
+		// renamed into place): the lookup comes back empty, RunPollLoop caches a column map that expects no columns
+		// and every rows event of the table is undecodable until its next table id
+		if cols != nil && fr.Chance(blindPct) {
+			cols = nil
+			if e != nil {
+				e.blind[table] = true
+			}
+		}
+		if e != nil {
+			e.fetches = append(e.fetches, fetch{table: table, cols: cols})
+		}
+		return cols
 	})
 	defer conn.Close()
 	db := sqlgen.NewDB(conn, schema)
 	ldb := livesql.NewLiveDB(db)
 	lg := &quietLogger{}
 	vb := livesql.NewVerifBinlog(ldb, database, lg)
-	e := &env{rids: map[interface{}]int{}, ridQuery: map[int]*liveQuery{}, invalid: map[int]bool{}, removed: map[int]bool{},
-		running: map[int]*liveQuery{}, needMap: map[string]bool{"users": true, "items": true, "closed_orders": true}}
+	layoutMu.Lock()
+	e = &env{rids: map[interface{}]int{}, ridQuery: map[int]*liveQuery{}, invalid: map[int]bool{}, removed: map[int]bool{},
+		running: map[int]*liveQuery{}, needMap: map[string]bool{"users": true, "items": true, "closed_orders": true},
+		blind: map[string]bool{}}
+	layoutMu.Unlock()
 	// every SELECT issued from a live query's function: the dependency must already be registered
 	srv.FailNext = func(kind, sql string) error {
 		if kind != "query" || !strings.HasPrefix(strings.ToUpper(strings.TrimSpace(sql)), "SELECT") {
@@ -615,9 +653,10 @@ func runCase(schema *sqlgen.Schema, c Case) (res *result) {
 		batch := e.pending[:n]
 		e.pending = e.pending[n:]
 		for _, p := range batch {
-			if !p.foreign && !p.tableMap {
+			if !p.foreign && !p.tableMap && !p.unknown {
 				e.inflight = append(e.inflight, p)
 			}
+			e.stream = append(e.stream, p)
 		}
 		e.mu.Unlock()
 		for _, p := range batch {
@@ -629,10 +668,17 @@ func runCase(schema *sqlgen.Schema, c Case) (res *result) {
 			id := uint64(1)
 			if p.layout != nil {
 				id = p.layout.TableID
+			} else if p.forceID != 0 {
+				id = p.forceID
 			}
+			p.sentDB, p.sentID = dbn, id
 			switch {
 			case p.tableMap:
-				ev = livesim.TableMapEvent(dbn, p.table, id, len(p.layout.Cols))
+				n := 1
+				if p.layout != nil {
+					n = len(p.layout.Cols)
+				}
+				ev = livesim.TableMapEvent(dbn, p.table, id, n)
 			case p.kind == "write":
 				ev = livesim.RowsEvent(dbn, p.table, id, nil, p.rows[0])
 			case p.kind == "delete":
@@ -890,8 +936,54 @@ func runCase(schema *sqlgen.Schema, c Case) (res *result) {
 		}
 		if r.Chance(10) { // an event of another database: ignored by RunPollLoop
 			e.mu.Lock()
+			if r.Chance(30) {
+				e.pending = append(e.pending, &pushed{table: "users", tableMap: true, foreign: true, forceID: 4242})
+			}
 			e.pending = append(e.pending, &pushed{table: "users", kind: "write", rows: [][]interface{}{{int64(1)}}, foreign: true})
 			e.mu.Unlock()
+		}
+		if r.Chance(8) { // a table of our database that is not registered with sqlgen: skipped, no column lookup
+			e.mu.Lock()
+			if r.Bool() {
+				e.pending = append(e.pending, &pushed{table: "audit_log", tableMap: true, unknown: true})
+			}
+			e.pending = append(e.pending, &pushed{table: "audit_log", kind: []string{"write", "delete"}[r.Intn(2)], rows: [][]interface{}{{int64(7), "x"}}, unknown: true})
+			e.mu.Unlock()
+		}
+		// a table whose column lookup came back empty is reopened (new table id) once the binlog is drained, so that
+		// its events become decodable again
+		layoutMu.Lock()
+		var blindTables []string
+		for t := range e.blind {
+			blindTables = append(blindTables, t)
+		}
+		sort.Strings(blindTables)
+		layoutMu.Unlock()
+		if len(blindTables) > 0 && commit == nil && r.Chance(50) {
+			deliver(1 << 20)
+			for i := 0; i < 4000; i++ {
+				e.mu.Lock()
+				n := len(e.inflight)
+				e.mu.Unlock()
+				if n == 0 {
+					break
+				}
+				time.Sleep(500 * time.Microsecond)
+			}
+			layoutMu.Lock()
+			for _, t := range blindTables {
+				nm := res.layouts[t].Reopen()
+				res.layouts[t] = nm
+				res.versions[t] = append(res.versions[t], nm)
+				delete(e.blind, t)
+			}
+			layoutMu.Unlock()
+			e.mu.Lock()
+			for _, t := range blindTables {
+				e.needMap[t] = true
+			}
+			e.mu.Unlock()
+			res.hist = append(res.hist, "alter:reopen-after-empty-lookup")
 		}
 		hold := 4
 		if c.Intense {
@@ -1143,14 +1235,31 @@ func main() {
 func caseTerm(g *livesim.Terms, schema *sqlgen.Schema, res *result) string {
 	var tabs []string
 	for _, d := range livesim.Catalogue {
-		for _, m := range res.versions[d.Name] {
-			var src []string
-			for _, j := range m.Source() {
-				src = append(src, vh.CoqZ(int64(j)))
+		tabs = append(tabs, fmt.Sprintf("(%s, %s)", vh.CoqString(d.Name), livesim.TableTerm(schema.ByName[d.Name])))
+	}
+	// the event stream as pushed into the syncer's channel
+	var stream []string
+	for _, p := range res.e.stream {
+		switch {
+		case p.tableMap:
+			stream = append(stream, fmt.Sprintf("PTableMap %s %s %s", vh.CoqString(p.sentDB), vh.CoqString(p.table), vh.CoqZ(int64(p.sentID))))
+		default:
+			var rows []string
+			for _, row := range p.rows {
+				rows = append(rows, g.Srcs(row))
 			}
-			tabs = append(tabs, fmt.Sprintf("(%s, (%s, %s, %s))", vh.CoqString(fmt.Sprintf("%s#%d", d.Name, m.TableID)),
-				livesim.TableTerm(schema.ByName[d.Name]), vh.CoqZ(int64(len(m.Cols))), vh.CoqList(src)))
+			kind := map[string]string{"write": "EWrite", "update": "EUpdate", "delete": "EDelete"}[p.kind]
+			stream = append(stream, fmt.Sprintf("PRows %s %s %s %s", vh.CoqString(p.sentDB), vh.CoqString(p.table), kind, vh.CoqList(rows)))
 		}
+	}
+	// the information_schema lookups RunPollLoop made, with the answers it got
+	var answers []string
+	for _, f := range res.e.fetches {
+		var cols []string
+		for _, c := range f.cols {
+			cols = append(cols, vh.CoqString(c))
+		}
+		answers = append(answers, fmt.Sprintf("(%s, %s)", vh.CoqString(f.table), vh.CoqList(cols)))
 	}
 	regs := map[int]tev{}
 	var evs []string
@@ -1166,10 +1275,6 @@ func caseTerm(g *livesim.Terms, schema *sqlgen.Schema, res *result) string {
 		case "read":
 			evs = append(evs, fmt.Sprintf("TRead %d%%nat", t.rid))
 		case "process":
-			var rows []string
-			for _, row := range t.ev.rows {
-				rows = append(rows, g.Srcs(row))
-			}
 			var rids []int
 			for rid := range t.verdicts {
 				rids = append(rids, rid)
@@ -1179,11 +1284,8 @@ func caseTerm(g *livesim.Terms, schema *sqlgen.Schema, res *result) string {
 			for _, rid := range rids {
 				vs = append(vs, fmt.Sprintf("(%d%%nat, %s)", rid, vh.CoqBool(t.verdicts[rid])))
 			}
-			kind := map[string]string{"write": "EWrite", "update": "EUpdate", "delete": "EDelete"}[t.ev.kind]
-			evs = append(evs, fmt.Sprintf("TProcess %s %s %s %s %s %s", vh.CoqString(t.table),
-				vh.CoqString(fmt.Sprintf("%s#%d", t.ev.table, t.ev.layout.TableID)), kind, vh.CoqList(rows),
-				vh.CoqBool(t.obsErr), vh.CoqList(vs)))
+			evs = append(evs, fmt.Sprintf("TProcess %s %s %s", vh.CoqString(t.table), vh.CoqBool(t.obsErr), vh.CoqList(vs)))
 		}
 	}
-	return fmt.Sprintf("mk_lcase %s\n %s", vh.CoqList(tabs), vh.CoqList(evs))
+	return fmt.Sprintf("mk_lcase %s %s\n %s\n %s\n %s", vh.CoqString(database), vh.CoqList(tabs), vh.CoqList(stream), vh.CoqList(answers), vh.CoqList(evs))
 }
